@@ -375,6 +375,122 @@ Section SolverE.
   Qed.
 
   (* ------------------------------------------------------------------------------------ *)
+  (* ... and the sequence is left untouched outside the units that were visited *)
+  Definition same_outside (rest : list loc) (s t : dna) : Prop :=
+    forall i, 0 <= i -> (forall u, In u rest -> ~ (lstart u <= i < lend u)) ->
+      nth_error t (Z.to_nat i) = nth_error s (Z.to_nat i).
+
+  Lemma exhaustive_local_step_outside : forall u s r lcs a b ol' vs lst,
+    good_ s ->
+    choices_span (ms_localized space (lstart u) (lend u)) = Some (a, b) ->
+    all_variants (ms_localized space (lstart u) (lend u)) s = Some vs ->
+    optimize_exhaustive spec ev enforced best boost
+      (mkLP spec None (map (fun c => reinit false c s) lcs) [ol']
+            (ms_localized space (lstart u) (lend u)))
+      (mkState spec s r []) = (ODone, lst) ->
+    forall i, 0 <= i -> ~ (a <= i < b) -> nth_error (cur _ lst) (Z.to_nat i) = nth_error s (Z.to_nat i).
+  Proof.
+    intros u s r lcs a b ol' vs lst Hg Hspan Hvs H i Hi Hni.
+    set (lspace := ms_localized space (lstart u) (lend u)) in *.
+    set (lp := mkLP spec None (map (fun c => reinit false c s) lcs) [ol'] lspace) in *.
+    destruct (optimize_exhaustive_spec spec ev enforced best boost lp (mkState spec s r []) vs ODone lst Hvs H)
+      as (_ & _ & Hdone).
+    destruct (Hdone eq_refl) as (_ & Hin & _). cbn [cur] in Hin.
+    destruct Hin as [E|Hin]; [rewrite E; reflexivity|].
+    apply (all_variants_outside_span lspace s vs a b (cur _ lst) i); try assumption.
+    - apply localized_wf_choices. exact space_wf.
+    - apply localized_member. exact (proj2 Hg).
+    - intros c Hc. destruct Hg as [Hn _]. rewrite Hn. eapply localized_fits; eauto.
+  Qed.
+
+  Lemma optimize_locations_outside : forall rest st o st',
+    good_ (cur _ st) -> NoDup rest -> (forall u, In u rest -> In u units) ->
+    (forall u s, In u rest -> good_ s -> negative u s = true -> unit_searchable u s) ->
+    (forall u, In u rest -> (gap u (cur _ st) < 0)%Q) ->
+    optimize_locations spec ev localize reinit enforced best boost opt_heuristic
+      cfg space cs [obj] obj rest st = (o, st') ->
+    same_outside rest (cur _ st) (cur _ st').
+  Proof.
+    induction rest as [|u rest IH]; intros st o st' Hg Hnd Hsub Hloc_ Hneg H.
+    - simpl in H. inversion H; subst. intros i _ _. reflexivity.
+    - cbn [optimize_locations] in H.
+      assert (Hu : In u units) by (apply Hsub; left; reflexivity).
+      assert (Hn : negative u (cur _ st) = true) by (apply negative_lt, Hneg; left; reflexivity).
+      pose proof (Hloc_ u (cur _ st) (or_introl eq_refl) Hg Hn) as HL. unfold unit_searchable in HL. cbv zeta in HL.
+      destruct HL as (Hsz & Hth & a & b & ol & vs & Hspan & Hla & Hbl & Hloc &
+                      (Hboost & Hbest & Hub & Hev) & Hvs & Hex).
+      apply Z.eqb_neq in Hsz. rewrite Hsz in H. rewrite Hspan in H.
+      destruct (localize_all_skipped cs (mkLoc a b 0) (cur _ st) (fun c Hc => Hc))
+        as (lcs & Elcs & Henf).
+      rewrite Elcs in H.
+      cbn [filter] in H. rewrite boost_obj_nonzero in H. cbn [negb localize_all] in H.
+      rewrite Hloc in H. rewrite no_heuristic in H.
+      apply Z.ltb_lt in Hth. rewrite Hth in H. cbn [map] in H.
+      match type of H with context [let '(o, lst) := ?X in _] => destruct X as [o1 lst] eqn:Eloc end.
+      destruct (exhaustive_local_step u (cur _ st) (rng _ st) lcs a b (reinit true ol (cur _ st)) vs o1 lst
+                  Hu Hg Hspan Hla Hbl Hboost Hbest Hub Hev Hvs Hex Henf Eloc)
+        as (Ho1 & Hr1 & Hg1 & Hgu & Hoth).
+      subst o1.
+      pose proof (exhaustive_local_step_outside u (cur _ st) (rng _ st) lcs a b (reinit true ol (cur _ st)) vs lst
+                    Hg Hspan Hvs Eloc) as Hout1.
+      inversion Hnd as [|x l Hnotin Hnd']; subst x l.
+      apply IH in H.
+      + cbn [assign cur] in H. intros i Hi Hnc. rewrite (H i Hi).
+        * apply Hout1; [exact Hi|]. intro Hab. apply (Hnc u (or_introl eq_refl)). lia.
+        * intros v Hv. apply Hnc. right. exact Hv.
+      + cbn [assign cur]. exact Hg1.
+      + exact Hnd'.
+      + intros v Hv. apply Hsub. right. exact Hv.
+      + intros v s0 Hv. apply Hloc_. right. exact Hv.
+      + intros v Hv. cbn [assign cur].
+        assert (Hvu : v <> u) by (intro E; subst v; contradiction).
+        rewrite (Hoth v (Hsub v (or_intror Hv)) Hvu). apply Hneg. right. exact Hv.
+  Qed.
+
+  Theorem optimize_objective_outside : forall st o st',
+    state_good spec space n st ->
+    snd (ev obj (cur _ st)) = Some (filter (fun u => negative u (cur _ st)) units) ->
+    (forall u s, In u units -> negative u (cur _ st) = true -> good_ s -> negative u s = true ->
+                 unit_searchable u s) ->
+    optimize_objective spec ev localize reinit enforced best boost opt_heuristic cfg space cs [obj] obj st = (o, st') ->
+    same_outside (filter (fun u => negative u (cur _ st)) units) (cur _ st) (cur _ st').
+  Proof.
+    intros st o st' [Hg _] Hls Hlocal H. unfold optimize_objective in H.
+    destruct (evaluate spec ev obj st) as [e st1] eqn:E.
+    apply evaluate_spec in E. destruct E as (He & Hc1 & Hr1).
+    rewrite best_obj in H. subst e.
+    destruct (Qeq_bool (fst (ev obj (cur _ st))) 0) eqn:Eq.
+    - inversion H; subst o st'. rewrite Hc1. intros i _ _. reflexivity.
+    - rewrite Hls in H. rewrite <- Hc1.
+      apply optimize_locations_outside in H.
+      + rewrite Hc1 in *. exact H.
+      + rewrite Hc1. exact Hg.
+      + apply NoDup_filter. exact units_NoDup.
+      + intros u Hin. apply filter_In in Hin. exact (proj1 Hin).
+      + intros u s Hin. apply filter_In in Hin. apply Hlocal; tauto.
+      + intros u Hin. apply filter_In in Hin. rewrite Hc1. apply negative_lt. exact (proj2 Hin).
+  Qed.
+
+  Theorem optimize_outside_initially_open_gaps : forall passive st o st',
+    passive obj = false ->
+    state_good spec space n st ->
+    snd (ev obj (cur _ st)) = Some (filter (fun u => negative u (cur _ st)) units) ->
+    (forall u s, In u units -> negative u (cur _ st) = true -> good_ s -> negative u s = true ->
+                 unit_searchable u s) ->
+    optimize spec ev localize reinit enforced best boost passive opt_heuristic cfg space cs [obj] st = (o, st') ->
+    same_outside (filter (fun u => negative u (cur _ st)) units) (cur _ st) (cur _ st').
+  Proof.
+    intros passive st o st' Hp Hg Hls Hlocal H. unfold optimize in H.
+    cbn [filter] in H. rewrite Hp, boost_obj_nonzero in H. cbn [negb andb optimize_each] in H.
+    destruct (optimize_objective spec ev localize reinit enforced best boost opt_heuristic
+                cfg space cs [obj] obj st) as [o1 st1] eqn:E1.
+    pose proof (optimize_objective_outside st o1 st1 Hg Hls Hlocal E1) as Hout.
+    destruct (optimize_objective_closes_initially_open_gaps st o1 st1 Hg Hls Hlocal E1)
+      as (Ho1 & _).
+    subst o1. inversion H; subst o st'. exact Hout.
+  Qed.
+
+  (* ------------------------------------------------------------------------------------ *)
   (* the original forms: every sub-optimal unit can be searched locally *)
   Hypothesis unit_local : forall u s, In u units -> good_ s -> negative u s = true ->
     let lspace := ms_localized space (lstart u) (lend u) in
